@@ -195,6 +195,23 @@ func VerifH_C07_ScalarPipeline() {
 					mu := new(big.Int).Mod(new(big.Int).SetUint64(in[0]), bT)
 					vPipelineGhost(w, level, new(big.Int).Mod(new(big.Int).Mul(mu, bS), bT), tag+"-CRT-reconstruction")
 					vAssert(out[0] == mu.Uint64(), tag+"-uint64-decodes-to-input-mod-t")
+					// a plaintext kept outside the NTT domain (IsNTT = false) goes through the same pipeline without the
+					// transforms
+					if sc == 1 && (level == 0 || level == params.MaxLevel()) {
+						ptc := NewPlaintext(params, level)
+						ptc.IsBatched = batched
+						ptc.IsNTT = false
+						ptc.Scale = rlwe.NewScale(sc)
+						inc := make([]uint64, n)
+						inc[0] = vU64("v")
+						vAssert(ecd.Encode(inc, ptc) == nil, tag+"-coefficient-domain-plaintext-Encode-no-error")
+						outc := make([]uint64, n)
+						outc[1] = 12345 // what the output held before must not matter
+						vAssert(ecd.Decode(ptc, outc) == nil, tag+"-coefficient-domain-plaintext-Decode-no-error")
+						mc := new(big.Int).Mod(new(big.Int).SetUint64(inc[0]), bT)
+						vPipelineGhost(w, level, new(big.Int).Mod(new(big.Int).Mul(mc, bS), bT), tag+"-CRT-reconstruction")
+						vAssert(outc[0] == mc.Uint64(), tag+"-coefficient-domain-plaintext-decodes-to-input-mod-t")
+					}
 					// signed, non-negative and negative separately (the sign bit selects the branch-free formula)
 					// (quick tier: the signed path at unit scale on the lowest and highest level; the scaled signed queries
 					// need minutes each and run in the thorough tier)
